@@ -80,7 +80,30 @@ func (env *evalEnv) scopePkg() *types.Package {
 	if env.pkg != nil {
 		return env.pkg
 	}
-	return env.g.fn.Pkg.Pkg
+	return env.g.typesPkgOfFn()
+}
+
+// typesPkgOfFn: the package a function's names resolve in (an instance of a generic has no package of its own)
+func (g *fnGen) typesPkgOfFn() *types.Package {
+	fn := g.fn
+	for fn != nil {
+		if fn.Pkg != nil {
+			return fn.Pkg.Pkg
+		}
+		if o := fn.Origin(); o != nil && o != fn {
+			fn = o
+			continue
+		}
+		if p := fn.Parent(); p != nil {
+			fn = p
+			continue
+		}
+		if fn.Object() != nil {
+			return fn.Object().Pkg()
+		}
+		break
+	}
+	return nil
 }
 
 func (env *evalEnv) imports() map[string]string {
